@@ -10,6 +10,7 @@ import (
 	"github.com/cockroachdb/errors/errorspb"
 	"github.com/cockroachdb/redact"
 	"github.com/gogo/protobuf/proto"
+	pkgerrors "github.com/pkg/errors"
 )
 
 // ---- harness ("user") error types ------------------------------------
@@ -91,6 +92,26 @@ func (e *UWrapBadProto) Reset()                   { *e = UWrapBadProto{} }
 func (e *UWrapBadProto) String() string           { return e.Msg }
 func (e *UWrapBadProto) ProtoMessage()            {}
 func (e *UWrapBadProto) Marshal() ([]byte, error) { return nil, goerrors.New("marshal: required field not set") }
+
+// UWrapStack is an application-defined (unregistered) wrapper that captures
+// its own stack and exposes it pkg/errors-style through StackTrace().
+type UWrapStack struct {
+	Msg   string
+	Cause error
+	St    pkgerrors.StackTrace
+}
+
+func (e *UWrapStack) Error() string                    { return e.Msg + ": " + e.Cause.Error() }
+func (e *UWrapStack) Unwrap() error                    { return e.Cause }
+func (e *UWrapStack) StackTrace() pkgerrors.StackTrace { return e.St }
+
+// NewUWrapStack captures the caller's stack.
+//
+//go:noinline
+func NewUWrapStack(cause error, msg string) *UWrapStack {
+	type tracer interface{ StackTrace() pkgerrors.StackTrace }
+	return &UWrapStack{Msg: msg, Cause: cause, St: pkgerrors.New("").(tracer).StackTrace()}
+}
 
 // UWrapPrefix is "msg: cause" with Unwrap.
 type UWrapPrefix struct {
